@@ -30,6 +30,52 @@ TARGETS = [
         ("SimpleValidator", "validate_beneficial_value", "C08", "C08_fn_validate_beneficial_value"),
         ("SimpleValidator", "outside_epsilon_range", "C07", "C07_fn_outside_epsilon_range"),
     ]),
+    # C05 (builder b0507, round 8): own areas, so that the structures of area "Simple" (shared with C07/C08) keep their fields.
+    # `fns_from`: methods/functions of other files that the targets call, translated on demand like local ones
+    # (`ChannelSetup::{is_anchors,is_zero_fee_htlc}`, `CommitmentInfo2::value_to_parties`, `expected_commitment_tx_weight`).
+    # Externals = LDK: `ChannelSetup::features()` (builds an LDK `ChannelTypeFeatures`) and LDK's `htlc_*_tx_weight`.
+    dict(area="SimpleCommit", rel="vls-core/src/policy/simple_validator.rs", consts=["vls-core/src/policy/mod.rs"],
+         externals={
+             "ChannelSetup.features": {"params": ["ChannelSetup"], "ret": "ChannelTypeFeatures"},
+             "htlc_timeout_tx_weight": {"params": ["ChannelTypeFeatures"], "ret": "u64"},
+             "htlc_success_tx_weight": {"params": ["ChannelTypeFeatures"], "ret": "u64"},
+         },
+         structs=["vls-core/src/channel.rs", "vls-core/src/tx/tx.rs", "vls-core/src/policy/validator.rs"],
+         fns_from=["vls-core/src/channel.rs", "vls-core/src/tx/tx.rs", "vls-core/src/util/transaction_utils.rs"], fns=[
+        ("SimpleValidator", "validate_channel_value", "C05", "C05_fn_validate_channel_value"),
+        ("SimpleValidator", "validate_commitment_tx", "C05", "C05_fn_validate_commitment_tx"),
+    ]),
+    # C07 (b0507, round 8): the whole of `validate_mutual_close_tx`.  Externals = the wallet (`&dyn Wallet`: `can_spend`
+    # returns a Result, `None` = Err; `allowlist_contains`) and the weight of the LDK-built closing transaction
+    # (`let weight = mutual_close_tx_weight(&ClosingTransaction::new(..)..)`: not interpreted, a function of exactly
+    # the listed variables -- the translator fails closed if the initialiser reads anything else).
+    dict(area="SimpleClose", rel="vls-core/src/policy/simple_validator.rs", consts=["vls-core/src/policy/mod.rs"],
+         externals={
+             "Wallet.can_spend": {"params": ["Wallet", "DerivationPath", "ScriptBuf"], "ret": "Result<bool, Status>"},
+             "Wallet.allowlist_contains": {"params": ["Wallet", "ScriptBuf", "DerivationPath"], "ret": "bool"},
+             "let:weight": {"callee": "mutual_close_tx_weight",
+                            "args": ["to_holder_value_sat", "to_counterparty_value_sat", "holder_script",
+                                     "counterparty_script", "setup"], "ret": "usize"},
+         },
+         structs=["vls-core/src/channel.rs", "vls-core/src/tx/tx.rs", "vls-core/src/policy/validator.rs"],
+         fns_from=["vls-core/src/tx/tx.rs"], fns=[
+        ("SimpleValidator", "validate_mutual_close_tx", "C07", "C07_fn_validate_mutual_close_tx"),
+    ]),
+    dict(area="SimpleSetup", rel="vls-core/src/policy/simple_validator.rs", consts=["vls-core/src/policy/mod.rs"],
+         externals={
+             "Wallet.can_spend": {"params": ["Wallet", "DerivationPath", "ScriptBuf"], "ret": "Result<bool, Status>"},
+             "Wallet.allowlist_contains": {"params": ["Wallet", "ScriptBuf", "DerivationPath"], "ret": "bool"},
+         },
+         structs=["vls-core/src/channel.rs"], fns_from=["vls-core/src/channel.rs"], fns=[
+        ("SimpleValidator", "validate_setup_channel", "C05", "C05_fn_validate_setup_channel"),
+    ]),
+    dict(area="Filter", rel="vls-core/src/policy/filter.rs", consts=[], externals={}, fns=[
+        ("PolicyFilter", "filter", "C05", "C05_fn_policy_filter"),
+    ]),
+    dict(area="Onchain", rel="vls-core/src/policy/onchain_validator.rs", consts=[], externals={},
+         structs=["vls-core/src/policy/validator.rs"], fns=[
+        ("OnchainValidator", "ensure_funding_buried_and_unspent", "C05", "C05_fn_ensure_funding_buried"),
+    ]),
     dict(area="EnforceVal", rel="vls-core/src/policy/validator.rs", consts=[], externals={},
          structs=["vls-core/src/tx/tx.rs"], fns=[
         ("EnforcementState", "minimum_to_holder_value", "C07", "C07_fn_minimum_to_holder_value"),
@@ -189,7 +235,8 @@ def extract(repo):
     snippets = []
     for tg in TARGETS:
         try:
-            u = Unit(repo, tg["rel"], "VlsModel.Gen.Fn" + tg["area"], tg.get("consts", ()), tg.get("externals", {}), tg.get("structs", ()))
+            u = Unit(repo, tg["rel"], "VlsModel.Gen.Fn" + tg["area"], tg.get("consts", ()), tg.get("externals", {}), tg.get("structs", ()),
+                     tg.get("fns_from", ()))
         except (RsError, OSError) as e:
             raise ExtractError("x_fn: cannot index %s: %s" % (tg["rel"], e))
         for tup in tg["fns"]:
